@@ -432,7 +432,13 @@ pub fn generate(run_seed: u64, ctx: &Ctx, sw: &Swarm, i: u64, exhaustive: u64) -
     let peeks = if client == Client::PeekNext {
         let k = 1 + r.usize(24);
         let heavy = *r.pick(&[1u64, 5, 9]);
-        (0..k).map(|_| if r.below(10) < heavy { 1 + r.below(2) as u8 } else { 0 }).collect()
+        let mut v: Vec<u8> = (0..k).map(|_| if r.below(10) < heavy { 1 + r.below(2) as u8 } else { 0 }).collect();
+        if r.chance(1, 6) {
+            // finish by internal iteration at a drawn point of the history
+            let at = r.usize(v.len());
+            v[at] = 3 + r.below(2) as u8;
+        }
+        v
     } else {
         vec![]
     };
@@ -451,6 +457,27 @@ pub fn generate(run_seed: u64, ctx: &Ctx, sw: &Swarm, i: u64, exhaustive: u64) -
 }
 
 // ------------------------------------------------------------------------------------------
+
+/// The rest of an error-free stream consumed by value through `count()` or `for_each`: exactly
+/// the events `next` has not returned yet (an event that `peek` cached counts once).
+fn finish_by_internal_iteration<I: Input>(p: Parser<'_, I>, expected: usize, op: usize, slot: usize) -> Option<(String, String)> {
+    clock::tick_op(55, slot as u64 % 2);
+    let (how, got) = if slot % 2 == 0 {
+        ("count()", p.count())
+    } else {
+        let mut n = 0usize;
+        p.for_each(|_| n += 1);
+        ("for_each", n)
+    };
+    if got == expected {
+        None
+    } else {
+        Some((
+            "MODEL(internal-iteration)".to_string(),
+            format!("after op {op}: finishing the stream with {how} delivered {got} items, the model expects the {expected} events that next had not returned yet"),
+        ))
+    }
+}
 
 fn same(ev: &Event<'_>, span: &Span, t: &(OwnedEvent, Span)) -> bool {
     ev == &t.0 && *span == t.1
@@ -483,7 +510,8 @@ impl ParserVisitor for Pull<'_> {
         let t = self.t;
         let case = self.case;
         let m = t.evs.len();
-        let g = guarded(|| {
+        let g = guarded(move || {
+            let mut p = p;
             let mut cursor = 0usize;
             let mut op = 0usize;
             let mut slot = 0usize;
@@ -496,6 +524,18 @@ impl ParserVisitor for Pull<'_> {
                     case.peeks[slot % case.peeks.len()]
                 };
                 slot += 1;
+                // 3 / 4: the client finishes the stream with one of the Iterator trait's provided
+                // methods (internal iteration: count, for_each), after one peek (3) or none (4).
+                // Only on streams without an error: the iterator is not fused after an error.
+                let finish = k >= 3 && t.end == End::Complete;
+                let k = match k {
+                    3 => 1,
+                    4 => 0,
+                    k => k,
+                };
+                if finish && k == 0 {
+                    return finish_by_internal_iteration(p, m - cursor, op, slot);
+                }
                 for j in 0..k {
                     if j > 0 {
                         clock::probe(Probe::PeekRepeated);
@@ -535,6 +575,9 @@ impl ParserVisitor for Pull<'_> {
                             }
                         }
                     }
+                }
+                if finish {
+                    return finish_by_internal_iteration(p, m - cursor, op, slot);
                 }
                 op += 1;
                 clock::tick_op(52, 0);
